@@ -13,6 +13,8 @@
  *   cfg 4  A7  handler based characteristics (free read/write (blob) handlers, mixin handlers, no_read_access + notify,
  *              write only, write_without_response)
  *   cfg 5      as cfg 0 but max_mtu_size<40> (C08 only)
+ *   cfg 6      small server: one service (128 bit UUID), 4 byte value with 128 bit UUID + notify, 20 byte value; for the requests
+ *              that walk the attribute table (Find Information, Read By Type, Read Multiple), which are out of reach on the larger ones
  */
 #include <bluetoe/server.hpp>
 #include <bluetoe/service.hpp>
@@ -235,6 +237,22 @@ using cfg4_server = bluetoe::server<
     >
 >;
 
+using cfg6_server = bluetoe::server<
+    bluetoe::no_gap_service_for_gatt_servers,
+    bluetoe::service<
+        bluetoe::service_uuid< 0x8C8B4094, 0x0DE2, 0x499F, 0xA28A, 0x4EED5BC73CA9 >,
+        bluetoe::characteristic<
+            bluetoe::characteristic_uuid< 0x8C8B4094, 0x0DE2, 0x499F, 0xA28A, 0x4EED5BC73CAB >,
+            bluetoe::bind_characteristic_value< std::uint32_t, &val_v4 >,
+            bluetoe::notify
+        >,
+        bluetoe::characteristic<
+            bluetoe::characteristic_uuid16< 0xFF01 >,
+            bluetoe::bind_characteristic_value< decltype( val_v20 ), &val_v20 >
+        >
+    >
+>;
+
 /* ---- generic access to one configuration (server and connection objects are plain globals) */
 template < class Server >
 using conn_of = typename Server::template channel_data_t< bluetoe::details::link_state >;
@@ -309,8 +327,10 @@ struct cfg
     using srv_t = cfg3_server;
 #elif ATT_A_PART == 4
     using srv_t = cfg4_server;
-#else
+#elif ATT_A_PART == 5
     using srv_t = cfg0_server< bluetoe::max_mtu_size< 40 > >;
+#else
+    using srv_t = cfg6_server;
 #endif
 
 srv_t            srv;
@@ -345,7 +365,7 @@ __attribute__((noinline)) unsigned vf_att_num_cccd( int cfgno )       { VF_DISPA
 /* configurations with at least one CCCD only (cfg 1, 2, 3, 4) */
 __attribute__((noinline)) void vf_att_get_cccd( int cfgno, std::uint8_t* cccd )
 {
-#if ATT_A_PART >= 1 && ATT_A_PART <= 4
+#if ( ATT_A_PART >= 1 && ATT_A_PART <= 4 ) || ATT_A_PART == 6
     VF_DISPATCH( get_cccd( cccd ) )
 #endif
 }
@@ -353,7 +373,7 @@ __attribute__((noinline)) void vf_att_get_cccd( int cfgno, std::uint8_t* cccd )
 /* queue a notification (indication == 0) or indication for the characteristic with the given CCCD index in the connection's real notification queue */
 __attribute__((noinline)) int vf_att_queue( int cfgno, int indication, unsigned idx )
 {
-#if ATT_A_PART >= 1 && ATT_A_PART <= 4
+#if ( ATT_A_PART >= 1 && ATT_A_PART <= 4 ) || ATT_A_PART == 6
     VF_DISPATCH( queue( indication, idx ) )
 #else
     return 0;
